@@ -1,17 +1,17 @@
 """
 File-system monitoring for C19: run a stage in a subprocess under
 
-    strace -f -y -e trace=openat,creat,mkdir,unlink,unlinkat,rename,renameat,
+    strace -f --seccomp-bpf -y -e trace=openat,creat,mkdir,unlink,unlinkat,rename,renameat,
                           renameat2,rmdir
 
 and turn the successful system calls that fall under the *watched* roots into
 the operations of the Lean model (CTM/Model/Scratch.lean):
 
-    mkdtemp / mkstemp   a mkdir / O_CREAT|O_EXCL open whose parent is a
-                        declared scratch directory or lies under a temporary
-                        the same run made earlier and whose name has the
-                        shape tempfile gives (prefix + 8 random characters +
-                        suffix)
+    mkdtemp / mkstemp   a mkdir(.., 0700) / open(O_CREAT|O_EXCL, 0600) -- the
+                        calls tempfile makes -- whose parent is a declared
+                        scratch directory or lies under a temporary the same
+                        run made earlier (and, for directories, whose name
+                        has 8 characters of tempfile's alphabet in it)
     mkdir, write (any open that can modify: O_WRONLY / O_RDWR / O_CREAT /
     O_TRUNC / O_APPEND), openRO, listdir (O_DIRECTORY), unlink, rmdir, move
 
@@ -90,7 +90,9 @@ def start_traced(job, job_dir, tag):
     env.setdefault('OMP_NUM_THREADS', '1')
     env.setdefault('OPENBLAS_NUM_THREADS', '1')
     env['PYTHONDONTWRITEBYTECODE'] = '1'
-    cmd = ['strace', '-f', '-y', '-s', '4096', '-o', str(trace_path),
+    # --seccomp-bpf: the tracer is woken only by the traced calls (3x faster)
+    cmd = ['strace', '-f', '--seccomp-bpf', '-y', '-s', '4096',
+           '-o', str(trace_path),
            '-e', 'trace=' + SYSCALLS,
            sys.executable, str(RUNNER), str(job_path)]
     proc = subprocess.Popen(cmd, env=env, stdout=subprocess.PIPE,
@@ -274,15 +276,19 @@ def parse_trace(text, cwd):
                 base = _fd_path(args[0], cwd)
                 ev['path'] = _abs(base, _str_arg(args[1]))
                 ev['flags'] = args[2]
+                ev['mode'] = args[3] if len(args) > 3 else None
             elif call in ('open', 'creat'):
                 ev['path'] = _abs(cwd, _str_arg(args[0]))
                 ev['flags'] = args[1] if call == 'open' else \
                     'O_CREAT|O_WRONLY|O_TRUNC'
             elif call in ('mkdir', 'rmdir', 'unlink'):
                 ev['path'] = _abs(cwd, _str_arg(args[0]))
+                if call == 'mkdir':
+                    ev['mode'] = args[1] if len(args) > 1 else None
             elif call == 'mkdirat':
                 ev['path'] = _abs(_fd_path(args[0], cwd), _str_arg(args[1]))
                 ev['call'] = 'mkdir'
+                ev['mode'] = args[2] if len(args) > 2 else None
             elif call == 'unlinkat':
                 ev['path'] = _abs(_fd_path(args[0], cwd), _str_arg(args[1]))
                 ev['call'] = 'rmdir' if 'AT_REMOVEDIR' in args[2] \
@@ -333,7 +339,10 @@ def to_ops(events, watched, scratch_dirs):
         parent = os.path.dirname(p)
         tmp_parent = parent in scratch_dirs or under_owned(parent)
         if call == 'mkdir':
-            if tmp_parent and _TMP_NAME.match(os.path.basename(p)):
+            # tempfile.mkdtemp: mkdir(.., 0o700) of prefix + 8 random
+            # characters + suffix; Path.mkdir / os.makedirs use 0o777
+            if tmp_parent and ev.get('mode') == '0700' \
+                    and _TMP_NAME.match(os.path.basename(p)):
                 ops.append({'op': 'mkdtemp', 'p': comps(p)})
                 owned.append(p)
             else:
@@ -342,7 +351,9 @@ def to_ops(events, watched, scratch_dirs):
             fl = ev['flags']
             if 'O_DIRECTORY' in fl:
                 ops.append({'op': 'listdir', 'p': comps(p)})
-            elif 'O_CREAT' in fl and 'O_EXCL' in fl and tmp_parent:
+            elif 'O_CREAT' in fl and 'O_EXCL' in fl and tmp_parent \
+                    and ev.get('mode') == '0600':
+                # tempfile.mkstemp: O_RDWR|O_CREAT|O_EXCL, 0o600
                 ops.append({'op': 'mkstemp', 'p': comps(p)})
                 owned.append(p)
             elif any(f in fl for f in ('O_WRONLY', 'O_RDWR', 'O_CREAT',
